@@ -58,6 +58,7 @@ type Cex struct {
 }
 
 type Witness struct {
+	Approx bool // the path condition contains float rounding variables (over-approximation): a native mismatch is not a translator bug
 	Entry  string
 	Table  map[string]interface{}
 	Obs    []string // predicted observations "tag=value"
@@ -1371,6 +1372,13 @@ func (m *M) recordWitness(status string) {
 		return
 	}
 	w := &Witness{Entry: ex.Entry.Name(), Table: m.tableFromModel(model[:nw]), Status: status}
+	for _, c := range m.st.PC {
+		for _, v := range termVars(c) {
+			if strings.HasPrefix(v, "fl_") || strings.HasPrefix(v, "fk_") || strings.HasPrefix(v, poisonPrefix) || strings.HasPrefix(v, "anyint_") || strings.HasPrefix(v, "now_") || strings.HasPrefix(v, "rand_") {
+				w.Approx = true
+			}
+		}
+	}
 	k := nw
 	for _, o := range m.st.Obs {
 		switch v := o.V.(type) {
